@@ -47,7 +47,7 @@ def explore(ctx):
                     ctx.violation(lines[k], br, rd, note="the text reads as complete forms but the REPL would not submit it")
     # sessions over a pipe
     sessions = []
-    nsess = 40 if ctx.quick else 1500
+    nsess = 150 if ctx.quick else 1500
     for s in range(nsess):
         forms = gen.repl_session(ctx.rng, ctx.rng.randint(3, 7))
         renders = []
@@ -83,7 +83,9 @@ def explore(ctx):
         "rule": "(a) check_bracket_closed (hook wrapper) vs the model on EVERY string up to length %d over the alphabet "
                 "( ) \" ; \\ # a newline |%s; (b) random texts through both the bracket test and the reader: a text that reads "
                 "as complete forms must be submitted; (c) %d random sessions (forms from the C01/C05 generators incl. failing "
-                "ones, strings/characters/comments/|identifiers| containing parentheses, several forms per line), each fed to "
+                "ones, strings/characters/comments/|identifiers| containing parentheses, several forms per line, and threads: a macro, a "
+                "procedure, a vector, a counter closure or an import established by one submission and used / redefined by later ones, "
+                "failing submissions in between), each fed to "
                 "the built binary over a pipe under 3 line splittings (one form per line, some breaks, many breaks): stdout "
                 "bytes and the number of error lines vs the model, and equality of the three transcripts. non-trivial = text "
                 "that reads completely, or a session" % (maxlen, " plus seeded longer samples" if ctx.quick else "", nsess),
